@@ -212,7 +212,7 @@ func (c *scriptedConnector) Deploy(ctx context.Context, src string) (deployer.Pl
 	wg.Add(1)
 	go func() {
 		defer wg.Done()
-		sch := newScriptedSchema(book, src)
+		sch := newScriptedSchema(book, src, connID)
 		_ = atp.RunATPServer(pluginCtx, stdinSub, stdoutSub, sch)
 	}()
 	theSink.note("XDeploy", "conn", connID, "src", src, "phase", phase)
@@ -288,7 +288,7 @@ func workOutputs() map[string]*schema.StepOutputSchema {
 	}
 }
 
-func newScriptedSchema(book *scriptBook, src string) *schema.CallableSchema {
+func newScriptedSchema(book *scriptBook, src string, connID string) *schema.CallableSchema {
 	handler := func(ctx context.Context, d *workData, in workInput) (string, any) {
 		st := book.forSrc(src)
 		ex := st.Exec
@@ -298,8 +298,7 @@ func newScriptedSchema(book *scriptBook, src string) *schema.CallableSchema {
 		if ex.Out == "" {
 			ex.Out = "success"
 		}
-		flat := map[string]string{}
-		flatten("", map[string]any{"id": in.ID, "deps": in.Deps, "s": in.S, "n": in.N, "b": in.B, "f": in.F, "l": in.L}, flat, 0)
+		flat := leaves(map[string]any{"id": in.ID, "deps": in.Deps, "s": in.S, "n": in.N, "b": in.B, "f": in.F, "l": in.L})
 		book.mu.Lock()
 		book.running[src]++
 		if book.running[src] > book.maxRun[src] {
@@ -307,7 +306,7 @@ func newScriptedSchema(book *scriptBook, src string) *schema.CallableSchema {
 		}
 		cur := book.running[src]
 		book.mu.Unlock()
-		theSink.note("XExecStart", "src", src, "id", in.ID, "input", flat, "concurrent", cur)
+		theSink.note("XExecStart", "src", src, "conn", connID, "id", in.ID, "input", flat, "concurrent", cur)
 		defer func() {
 			book.mu.Lock()
 			book.running[src]--
@@ -315,7 +314,7 @@ func newScriptedSchema(book *scriptBook, src string) *schema.CallableSchema {
 		}()
 		finish := func(out string) (string, any) {
 			tok := in.ID + "/" + out
-			theSink.note("XExecEnd", "src", src, "id", in.ID, "out", out)
+			theSink.note("XExecEnd", "src", src, "conn", connID, "id", in.ID, "out", out)
 			if ex.BadData {
 				return out, badOutput{Tok: 7}
 			}
@@ -333,7 +332,7 @@ func newScriptedSchema(book *scriptBook, src string) *schema.CallableSchema {
 			cancelC = d.cancel
 		}
 		onCancel := func() (string, any, bool) {
-			theSink.note("XSigRecv", "src", src, "id", in.ID)
+			theSink.note("XSigRecv", "src", src, "conn", connID, "id", in.ID)
 			if ex.OnCancel == "ignore" {
 				return "", nil, false
 			}
@@ -352,7 +351,7 @@ func newScriptedSchema(book *scriptBook, src string) *schema.CallableSchema {
 					}
 					cancelC = nil
 				case <-ctx.Done():
-					theSink.note("XExecAbort", "src", src, "id", in.ID)
+					theSink.note("XExecAbort", "src", src, "conn", connID, "id", in.ID)
 					return finish(ex.Out)
 				}
 			}
@@ -372,7 +371,7 @@ func newScriptedSchema(book *scriptBook, src string) *schema.CallableSchema {
 				cancelC = nil
 			case <-ctx.Done():
 				// The server context is cancelled when the connection is closed (a killed container).
-				theSink.note("XExecAbort", "src", src, "id", in.ID)
+				theSink.note("XExecAbort", "src", src, "conn", connID, "id", in.ID)
 				return finish(ex.Out)
 			}
 		}
